@@ -285,3 +285,438 @@ UNITS = [combinator_unit('WorkCalendarSum', lambda a, b: a + b, 'plain'),
          combinator_unit('WorkCalendarsMul', lambda a, b: a * b, 'plain'),
          combinator_unit('WorkCalendarDiv', lambda a, b: a / b, 'div'),
          disjunction_unit()] + fixed_units() + direct_units() + weekly_units() + resource_units()
+
+
+# ================================================================================================ operators and remaining constructors
+OPERAND = S('Operand', None)          # dynamically typed right operand of + - * / | : a number or a calendar
+TYPEV = S('TypeOf', None); TYPEN = S('TypeName', None)
+fixed_of = Function('FixedCalendar_of', RealSort(), CAL.z)      # the calendar built by FixedCalendar(n) (fresh object; identity irrelevant for the value semantics)
+COMB = {'__add__': 'WorkCalendarSum', '__sub__': 'WorkCalendarSub', '__mul__': 'WorkCalendarsMul', '__truediv__': 'WorkCalendarDiv', '__or__': 'WorkCalendarDisjunction'}
+new_comb = {c: Function('new_' + c, LC.z, CAL.z) for c in COMB.values()}      # the combinator object built from an operand list (upcast to the interface sort)
+comb_ops = Function('combinator_operands', CAL.z, LC.z); comb_kind = Function('combinator_kind', CAL.z, IntSort())
+
+
+class OperandPlugin:
+    def call(self, eng, e, st):
+        f = e.func
+        if isinstance(f, ast.Name) and f.id == 'type' and len(e.args) == 1:
+            s, v = eng.ev1(e.args[0], st)
+            if v.s != OPERAND: return NotImplemented
+            return [(s, V(v.e, TYPEV))]
+        if isinstance(f, ast.Name) and f.id == 'FixedCalendar' and len(e.args) == 1:
+            s, v = eng.ev1(e.args[0], st)
+            if v.s != OPERAND: return NotImplemented
+            isnum, num, cal = v.e
+            s.oblige('safe/TypeError-FixedCalendar-of-a-non-number', isnum, f'@{e.lineno}')
+            exc = s.fork(num < 0); ok = s.fork(num >= 0)              # contract of FixedCalendar.__init__ (its own unit): negative units are rejected
+            dd = Real('dd')
+            ok.assume(And(fixed_of(num) != CAL.null, ForAll([dd], val(fixed_of(num), dd) == OR.dt.some(num), patterns=[val(fixed_of(num), dd)])))   # contract of FixedCalendar.get_available_units without bounds
+            return [(ok, V(fixed_of(num), CAL)), (exc, Raise('RuntimeError'))]
+        if isinstance(f, ast.Name) and f.id in new_comb and len(e.args) == 1:
+            out = []
+            for s, v in eng.ev(e.args[0], st):
+                if isinstance(v, Raise): out.append((s, v)); continue
+                r = new_comb[f.id](v.e)
+                s.assume(And(r != CAL.null, comb_ops(r) == v.e, comb_kind(r) == list(new_comb).index(f.id)))     # contract of the combinator constructors: store the operand list
+                out.append((s, V(r, CAL)))
+            return out
+        return NotImplemented
+
+    def ev_Name(self, eng, e, st):
+        if e.id in ('int', 'float') and e.id not in st.env: return [(st, V(e.id, TYPEN))]
+        return NotImplemented
+
+    def ev_List(self, eng, e, st):
+        out = []
+        for s, vs in eng.ev_seq(e.elts, st):
+            if isinstance(vs, Raise): out.append((s, vs)); continue
+            if all(v.s == TYPEN for v in vs): out.append((s, V([v.e for v in vs], S('TypeList', None)))); continue
+            if all(v.s == CAL for v in vs):
+                Lc = fresh('ops', LC); s.assume(LC.len(Lc) == len(vs))
+                for k, v in enumerate(vs): s.assume(LC.at(Lc, k) == v.e)
+                out.append((s, V(Lc, LC))); continue
+            return NotImplemented
+        return out
+
+    def cmp(self, eng, st, k, l, r, line):
+        if k in ('In', 'NotIn') and l.s == TYPEV and r.s.name == 'TypeList':
+            isnum = l.e[0]
+            c = isnum if set(r.e) == {'int', 'float'} else None
+            if c is None: raise Unsupported('type list')
+            return c if k == 'In' else Not(c)
+        if k in ('Eq', 'NotEq') and l.s == OPERAND and r.s == INT:
+            isnum, num, cal = l.e
+            c = And(isnum, num == ToReal(r.e))          # a calendar object is never equal to a number
+            return c if k == 'Eq' else Not(c)
+        return NotImplemented
+
+
+def operand(name='other'):
+    return V((Bool(name + '_is_number'), Real(name + '_number'), Const(name + '_calendar', CAL.z)), OPERAND)
+
+
+def prepared(o):
+    isnum, num, cal = o.e
+    return If(isnum, fixed_of(num), cal)
+
+
+def operator_units():
+    units = []
+
+    def mk_prepare():
+        def build():
+            o = operand()
+            fc = {'sig': {}, 'globals': {'other': o},
+                  'raises': {'RuntimeError': [('C17/a-negative-number-is-rejected', lambda c: And(o.e[0], o.e[1] < 0))]},
+                  'ensures': [('C17/a-number-acts-as-a-constant-calendar-a-calendar-is-taken-as-it-is',
+                               lambda c: And(c.result.s == CAL if False else BoolVal(True), (c.result.e if c.result.s == CAL else o.e[2]) == prepared(o), Implies(o.e[0], o.e[1] >= 0)))]}
+            return Engine(F, 'IWorkCalendar.__prepare_calendar', {}, {}, fc, plugins=[OperandPlugin()]), []
+        return Unit('IWorkCalendar.__prepare_calendar', F, build, ['C17'])
+    units.append(mk_prepare())
+
+    def c_prepare(eng, st, recv, args, kws, node):
+        o = args[0]
+        if o.s != OPERAND: raise Unsupported('__prepare_calendar argument')
+        isnum, num, cal = o.e
+        exc = st.fork(And(isnum, num < 0)); ok = st.fork(Not(And(isnum, num < 0)))
+        dd = Real('dd')
+        ok.assume(Implies(isnum, And(fixed_of(num) != CAL.null, ForAll([dd], val(fixed_of(num), dd) == OR.dt.some(num), patterns=[val(fixed_of(num), dd)]))))
+        return [(ok, V(prepared(o), CAL)), (exc, Raise('RuntimeError'))]
+
+    def mk_op(opname, comb):
+        def build():
+            o = operand()
+            isnum, num, cal = o.e
+            zero = And(isnum, num == 0)
+            reject = Or(And(isnum, num < 0), zero) if opname == '__truediv__' else And(isnum, num < 0)
+            res = lambda c: c.result.e
+
+            def spec(c):
+                r = res(c)
+                return And(r != CAL.null, comb_kind(r) == list(new_comb).index(comb), LC.len(comb_ops(r)) == 2, LC.at(comb_ops(r), 0) == c['self'], LC.at(comb_ops(r), 1) == prepared(o))
+            fc = {'sig': {'self': CAL}, 'globals': {'other': o},
+                  'requires': [('nn', lambda c: And(c['self'] != CAL.null, Implies(Not(isnum), cal != CAL.null)))],
+                  'raises': {'RuntimeError': [('C17/rejected-only-for-the-number-zero-as-divisor-or-a-negative-number' if opname == '__truediv__' else 'C17/rejected-only-for-a-negative-number', lambda c: reject)]},
+                  'ensures': [(f'C17/result-is-the-{comb}-of-the-receiver-and-the-operand-(a-number-as-constant-calendar)', spec),
+                              ('C17/accepted-only-if-not-rejectable', lambda c: Not(reject))]}
+            return Engine(F, f'IWorkCalendar.{opname}', {'IWorkCalendar._IWorkCalendar__prepare_calendar': c_prepare}, {}, fc, plugins=[OperandPlugin()]), []
+        return Unit(f'IWorkCalendar.{opname}', F, build, ['C17'])
+    for opname, comb in COMB.items(): units.append(mk_op(opname, comb))
+    return units
+
+
+UNITS += operator_units()
+
+
+# ------------------------------------------------------------------------------------------------ WeeklyCalendar.__init__
+UPD = S('UnitsPerDay', None)          # dynamically typed argument: None | number | dict | anything else
+LI = LIST(INT); OLI = OPT(LI)
+d_put = Function('dIR_put', DICT_IR.z, IntSort(), RealSort(), DICT_IR.z); d_empty = Const('dIR_empty', DICT_IR.z); d_keys = Function('dIR_keys', DICT_IR.z, LI.z)
+_d = Const('_d', DICT_IR.z); _k, _k2 = Ints('_k _k2'); _v = Real('_v'); _jj = Int('_jj')
+DICT_AX = [ForAll([_k], Not(d_has(d_empty, _k)), patterns=[d_has(d_empty, _k)]),
+           ForAll([_d, _k, _v, _k2], d_has(d_put(_d, _k, _v), _k2) == Or(_k2 == _k, d_has(_d, _k2)), patterns=[d_has(d_put(_d, _k, _v), _k2)]),
+           ForAll([_d, _k, _v, _k2], d_get(d_put(_d, _k, _v), _k2) == If(_k2 == _k, _v, d_get(_d, _k2)), patterns=[d_get(d_put(_d, _k, _v), _k2)]),
+           ForAll([_d], LI.len(d_keys(_d)) >= 0),
+           ForAll([_d, _jj], Implies(And(0 <= _jj, _jj < LI.len(d_keys(_d))), d_has(_d, LI.at(d_keys(_d), _jj))), patterns=[LI.at(d_keys(_d), _jj)]),
+           ForAll([_d, _k], Implies(d_has(_d, _k), Exists([_jj], And(0 <= _jj, _jj < LI.len(d_keys(_d)), LI.at(d_keys(_d), _jj) == _k))), patterns=[d_has(_d, _k)])]
+
+
+def outside_0_6(L):
+    return Exists([_jj], And(0 <= _jj, _jj < LI.len(L), Or(LI.at(L, _jj) < 0, LI.at(L, _jj) > 6)))
+
+
+class WeeklyInitPlugin(DictPlugin):
+    def call(self, eng, e, st):
+        f = e.func
+        if isinstance(f, ast.Name) and f.id == 'type' and len(e.args) == 1:
+            s, v = eng.ev1(e.args[0], st)
+            if v.s == UPD: return [(s, V(v.e, TYPEV))]
+        if isinstance(f, ast.Name) and f.id == 'list' and len(e.args) == 1 and ast.unparse(e.args[0]).endswith('.keys()'):
+            s, v = eng.ev1(e.args[0].func.value, st)
+            if v.s == UPD:
+                s.oblige('safe/AttributeError-keys-of-a-non-dict', v.e['isdict'], f'@{e.lineno}')
+                return [(s, V(OLI.dt.some(d_keys(v.e['dict'])), OLI))]
+        return DictPlugin.call(eng, e, st) if False else NotImplemented
+
+    def ev_Dict(self, eng, e, st):
+        if e.keys: return NotImplemented
+        return [(st, V(d_empty, DICT_IR))]
+
+    def ev_Name(self, eng, e, st):
+        if e.id in ('int', 'float', 'dict') and e.id not in st.env: return [(st, V(e.id, TYPEN))]
+        return NotImplemented
+
+    def cmp(self, eng, st, k, l, r, line):
+        if k in ('Is', 'IsNot') and l.s == TYPEV and r.s == TYPEN:
+            u = l.e
+            c = {'int': And(u['isnum'], u['isint']), 'float': And(u['isnum'], Not(u['isint'])), 'dict': u['isdict']}[r.e]
+            return c if k == 'Is' else Not(c)
+        if k in ('Is', 'IsNot') and l.s == UPD and r.s == NONE:
+            return l.e['isnone'] if k == 'Is' else Not(l.e['isnone'])
+        if k in ('Lt',) and l.s == UPD and r.s == INT:
+            st.oblige('safe/TypeError-comparison-of-a-non-number', l.e['isnum'], f'@{line}')
+            return l.e['num'] < ToReal(r.e)
+        if k in ('In', 'NotIn') and r.s == OLI and l.s == INT:
+            st.oblige('safe/TypeError-None-iteration', OLI.dt.is_some(r.e), f'@{line}')
+            L = OLI.dt.val(r.e); c = Exists([_jj], And(0 <= _jj, _jj < LI.len(L), LI.at(L, _jj) == l.e))
+            return c if k == 'In' else Not(c)
+        if k in ('In', 'NotIn') and r.s == UPD and l.s == INT:
+            st.oblige('safe/TypeError-membership-in-a-non-dict', r.e['isdict'], f'@{line}')
+            c = d_has(r.e['dict'], l.e); return c if k == 'In' else Not(c)
+        return DictPlugin.cmp(eng, st, k, l, r, line)
+
+    def ev_Subscript(self, eng, e, st):
+        if isinstance(e.slice, ast.Slice): return NotImplemented
+        if isinstance(e.ctx, ast.Load):
+            s, o = eng.ev1(e.value, st)
+            if o.s == UPD:
+                s, i = eng.ev1(e.slice, s)
+                s.oblige('safe/KeyError', And(o.e['isdict'], d_has(o.e['dict'], i.e)), f'@{e.lineno}')
+                return [(s, V(d_get(o.e['dict'], i.e), REAL))]
+        return DictPlugin.ev_Subscript(eng, e, st)
+
+    def assign(self, eng, s, target, v):
+        if isinstance(target, ast.Subscript) and isinstance(target.value, ast.Attribute):
+            s2, o = eng.ev1(target.value.value, s)
+            fld = eng.mangle(target.value.attr)
+            if o.s.is_ref and eng.classes.get(o.s.cls, {}).get(fld) == DICT_IR:
+                s2, i = eng.ev1(target.slice, s2)
+                arr = eng.field(s2, o.s.cls, fld)
+                val_ = v.e['num'] if v.s == UPD else eng.coerce(v, REAL)
+                if v.s == UPD: s2.oblige('safe/TypeError-units-of-a-non-number', v.e['isnum'], f'@{target.lineno}')
+                eng.write(s2, o.s.cls + '.' + fld, Store(arr, o.e, d_put(arr[o.e], i.e, val_)))
+                return [(s2, FALL)]
+        if isinstance(target, ast.Name) and v.s == UPD:
+            s.env[target.id] = v; return [(s, FALL)]
+        return NotImplemented
+
+    def ev_IfExp(self, eng, e, st):
+        # `units_per_day if i in days else 0`: the number-or-zero value stays a number
+        out = []
+        for s, c in eng.ev(e.test, st):
+            if isinstance(c, Raise): out.append((s, c)); continue
+            t = eng.truth(s, c)
+            for br, cond in ((e.body, t), (e.orelse, Not(t))):
+                for s2, v in eng.ev(br, s.fork(cond)):
+                    if not isinstance(v, Raise) and v.s == UPD:
+                        s2.oblige('safe/TypeError-units-of-a-non-number', v.e['isnum']); v = V(v.e['num'], REAL)
+                    out.append((s2, v))
+        return out
+
+
+def weekly_init_unit():
+    cls = 'WeeklyCalendar'; R = REF(cls)
+
+    def build():
+        u = {'isnone': Bool('upd_is_none'), 'isnum': Bool('upd_is_number'), 'isint': Bool('upd_is_int'), 'isdict': Bool('upd_is_dict'), 'num': Real('upd_number'), 'dict': Const('upd_dict', DICT_IR.z)}
+        upd = V(u, UPD)
+        classes = {cls: {'_WeeklyCalendar__day_hours': DICT_IR, '_WeeklyCalendar__start': OT, '_WeeklyCalendar__end': OT}}
+        g = lambda c, f: Select(c.fld(cls, '_WeeklyCalendar__' + f), c['self'])
+        days = lambda c: c.old('days'); dsome = lambda c: OLI.dt.is_some(days(c)); dl = lambda c: OLI.dt.val(days(c))
+        se_bad = lambda c: And(OT.dt.is_some(c.old('start')), OT.dt.is_some(c.old('end')), OT.dt.val(c.old('start')) > OT.dt.val(c.old('end')))
+        kk = Int('kk')
+
+        def bad(c):        # taken from the property: weekdays outside 0-6, negative units, start after end; plus the malformed argument combinations
+            return Or(And(dsome(c), outside_0_6(dl(c))), se_bad(c), u['isnone'],
+                      And(dsome(c), Not(u['isnum'])), And(dsome(c), u['isnum'], u['num'] < 0),
+                      And(Not(dsome(c)), Not(u['isdict'])), And(Not(dsome(c)), u['isdict'], outside_0_6(d_keys(u['dict']))),
+                      And(Not(dsome(c)), u['isdict'], Exists([kk], And(0 <= kk, kk <= 6, d_has(u['dict'], kk), d_get(u['dict'], kk) < 0))))
+
+        def c_check_wd(eng, st, recv, args, kws, node):
+            a = args[0]
+            L = eng.coerce(a, OLI) if a.s != NONE else OLI.dt.none
+            b = And(OLI.dt.is_some(L), outside_0_6(OLI.dt.val(L)))
+            return [(st.fork(Not(b)), V(None, NONE)), (st.fork(b), Raise('RuntimeError'))]
+
+        def c_check_se(eng, st, recv, args, kws, node):
+            s_, e_ = eng.coerce(args[0], OT), eng.coerce(args[1], OT)
+            b = And(OT.dt.is_some(s_), OT.dt.is_some(e_), OT.dt.val(s_) > OT.dt.val(e_))
+            return [(st.fork(Not(b)), V(None, NONE)), (st.fork(b), Raise('RuntimeError'))]
+
+        def want(c, k):
+            return If(dsome(c), If(Exists([_jj], And(0 <= _jj, _jj < LI.len(dl(c)), LI.at(dl(c), _jj) == k)), u['num'], 0), If(d_has(u['dict'], k), d_get(u['dict'], k), 0))
+
+        def inv(c):
+            i = c['_i0'] if '_i0' in c.st.env else c['_i1']
+            dh = g(c, 'day_hours')
+            return And(i >= 0, i <= 7, ForAll([kk], d_has(dh, kk) == And(0 <= kk, kk < i), patterns=[d_has(dh, kk)]),
+                       ForAll([kk], Implies(And(0 <= kk, kk < i), And(d_get(dh, kk) == want(c, kk), d_get(dh, kk) >= 0)), patterns=[d_get(dh, kk)]))
+        fc = {'sig': {'self': R, 'start': OT, 'end': OT, 'days': OLI}, 'globals': {'units_per_day': upd}, 'locals': {},
+              'requires': [('nn', lambda c: And(c['self'] != R.null, Const('WeeklyCalendar_class', REF('WeeklyCalendarClass').z) != REF('WeeklyCalendarClass').null)),
+                           ('argument-kinds-are-exclusive', lambda c: And(Implies(u['isnone'], And(Not(u['isnum']), Not(u['isdict']))), Implies(u['isnum'], Not(u['isdict']))))],
+              'loops': {0: {'fingerprint': 'for i in range(0, 7)', 'invariant': [('entries-so-far', inv)], 'havoc_heap': [cls + '._WeeklyCalendar__day_hours']},
+                        1: {'fingerprint': 'for i in range(0, 7)', 'invariant': [('entries-so-far', inv)], 'havoc_heap': [cls + '._WeeklyCalendar__day_hours']}},
+              'raises': {'RuntimeError': [('C17/rejected-only-for-a-malformed-definition', bad)]},
+              'ensures': [('C17/accepted-only-if-well-formed', lambda c: Not(bad(c))),
+                          ('C17/one-entry-per-weekday-with-the-configured-value (class invariant of the getter)',
+                           lambda c: And(ForAll([kk], d_has(g(c, 'day_hours'), kk) == And(0 <= kk, kk <= 6)), ForAll([kk], Implies(And(0 <= kk, kk <= 6), d_get(g(c, 'day_hours'), kk) == want(c, kk))))),
+                          ('C17/validity-bounds-stored', lambda c: And(g(c, 'start') == c.old('start'), g(c, 'end') == c.old('end')))]}
+        contracts = {'WeeklyCalendarClass._WeeklyCalendar__check_working_days': c_check_wd, 'WeeklyCalendarClass._WeeklyCalendar__check_start_end': c_check_se}
+        eng = Engine(F, 'WeeklyCalendar.__init__', contracts, classes, fc, plugins=[WeeklyInitPlugin()])
+        eng.fc['globals']['WeeklyCalendar'] = V(Const('WeeklyCalendar_class', REF('WeeklyCalendarClass').z), REF('WeeklyCalendarClass'))
+        return eng, DICT_AX
+    return Unit('WeeklyCalendar.__init__', F, build, ['C17'], timeout_ms=15000)
+
+
+UNITS.append(weekly_init_unit())
+
+
+# ------------------------------------------------------------------------------------------------ DirectCalendar.__init__ / set_units, FuncCalendar, combinator constructors
+INP = S('InputDict', DeclareSort('InputDict')); OINP = OPT(INP)
+LTm = LIST(TIME); LOR = LIST(OR)
+ik = Function('input_keys', INP.z, LTm.z); iv = Function('input_values', INP.z, LOR.z)
+t_union = Function('dTR_union', DICT_TR.z, DICT_TR.z, DICT_TR.z); t_empty = Const('dTR_empty', DICT_TR.z)
+_a, _b = Consts('_da _db', DICT_TR.z); _kt = Real('_kt')
+DTR_AX = [ForAll([_kt], Not(t_has(t_empty, _kt)), patterns=[t_has(t_empty, _kt)]),
+          ForAll([_a, _b, _kt], t_has(t_union(_a, _b), _kt) == Or(t_has(_a, _kt), t_has(_b, _kt)), patterns=[t_has(t_union(_a, _b), _kt)]),
+          ForAll([_a, _b, _kt], t_get(t_union(_a, _b), _kt) == If(t_has(_b, _kt), t_get(_b, _kt), t_get(_a, _kt)), patterns=[t_get(t_union(_a, _b), _kt)])]
+
+
+class DirectPlugin(DictPlugin):
+    def call(self, eng, e, st):
+        f = e.func
+        if isinstance(f, ast.Attribute) and f.attr in ('values', 'items') and not e.args:
+            s, v = eng.ev1(f.value, st)
+            if v.s == INP:
+                if f.attr == 'values': return [(s, V(iv(v.e), LOR))]
+                return [(s, V(v.e, S('InputItems', None)))]
+        return NotImplemented
+
+    def ev_Dict(self, eng, e, st):
+        if e.keys: return NotImplemented
+        return [(st, V(t_empty, DICT_TR))]
+
+    def ev_DictComp(self, eng, e, st):
+        g = e.generators[0]
+        s, src = eng.ev1(g.iter, st)
+        if src.s.name != 'InputItems' or ast.unparse(e.key) != f'_day_start({g.target.elts[0].id})' or ast.unparse(e.value) != g.target.elts[1].id or g.ifs:
+            raise Unsupported('dict comprehension form')
+        K, Vs = ik(src.e), iv(src.e); nd = fresh('normalised', DICT_TR); j = Int('j')
+        # {_day_start(k): v for k, v in units.items()} for keys on pairwise different days (pre-condition): entry per key, keyed by its midnight
+        s.assume(ForAll([j], Implies(And(0 <= j, j < LTm.len(K)), And(t_has(nd, midnight(LTm.at(K, j))), t_get(nd, midnight(LTm.at(K, j))) == LOR.at(Vs, j))), patterns=[LTm.at(K, j)]))
+        s.assume(ForAll([_kt], Implies(t_has(nd, _kt), Exists([j], And(0 <= j, j < LTm.len(K), midnight(LTm.at(K, j)) == _kt))), patterns=[t_has(nd, _kt)]))
+        return [(s, V(nd, DICT_TR))]
+
+    def binop(self, eng, st, k, l, r, line):
+        if k == 'BitOr' and l.s == DICT_TR and r.s == DICT_TR: return V(t_union(l.e, r.e), DICT_TR)
+        return NotImplemented
+
+    def cmp(self, eng, st, k, l, r, line):
+        if k in ('Is', 'IsNot') and l.s == OINP and r.s == NONE:
+            c = OINP.dt.is_none(l.e); return c if k == 'Is' else Not(c)
+        return DictPlugin.cmp(eng, st, k, l, r, line)
+
+
+def direct_more_units():
+    cls = 'DirectCalendar'; R = REF(cls)
+    classes = {cls: {'_DirectCalendar__units': DICT_TR}}
+    u = lambda c, w='cur': Select(c.fld(cls, '_DirectCalendar__units', w), c['self'])
+    j = Int('j'); i2 = Int('i2')
+
+    def negative(d):
+        return Exists([j], And(0 <= j, j < LOR.len(iv(d)), OR.dt.is_some(LOR.at(iv(d), j)), OR.dt.val(LOR.at(iv(d), j)) < 0))
+
+    def wf_input(d):
+        return And(LTm.len(ik(d)) == LOR.len(iv(d)), LTm.len(ik(d)) >= 0,
+                   ForAll([j, i2], Implies(And(0 <= j, j < i2, i2 < LTm.len(ik(d))), midnight(LTm.at(ik(d), j)) != midnight(LTm.at(ik(d), i2)))))
+
+    def effect(c, d, u0, u1):
+        return And(ForAll([j], Implies(And(0 <= j, j < LTm.len(ik(d))), And(t_has(u1, midnight(LTm.at(ik(d), j))), t_get(u1, midnight(LTm.at(ik(d), j))) == LOR.at(iv(d), j))), patterns=[LTm.at(ik(d), j)]),
+                   ForAll([_kt], Implies(Not(Exists([j], And(0 <= j, j < LTm.len(ik(d)), midnight(LTm.at(ik(d), j)) == _kt))), And(t_has(u1, _kt) == t_has(u0, _kt), t_get(u1, _kt) == t_get(u0, _kt)))))
+
+    def build_set():
+        fc = {'sig': {'self': R, 'units': INP}, 'locals': {'v': OR},
+              'requires': [('nn', lambda c: c['self'] != R.null), ('keys-on-pairwise-different-days', lambda c: wf_input(c['units']))],
+              'loops': {0: {'fingerprint': 'for v in units.values()',
+                            'invariant': [('no-negative-value-so-far', lambda c: And(c['_i0'] >= 0, u(c) == u(c, 'pre'),
+                                                                                      ForAll([j], Implies(And(0 <= j, j < c['_i0']), Not(And(OR.dt.is_some(LOR.at(iv(c['units']), j)), OR.dt.val(LOR.at(iv(c['units']), j)) < 0))))))]}},
+              'raises': {'RuntimeError': [('C17/rejected-only-for-negative-units', lambda c: negative(c['units'])), ('C15-style/calendar-unchanged', lambda c: u(c) == u(c, 'pre'))]},
+              'ensures': [('C17/accepted-only-without-negative-units', lambda c: Not(negative(c['units']))),
+                          ('C17/every-given-day-returns-its-configured-value-other-days-unchanged', lambda c: effect(c, c['units'], u(c, 'pre'), u(c)))]}
+        return Engine(F, 'DirectCalendar.set_units', {'fn:_day_start': c_day_start}, classes, fc, plugins=[DirectPlugin()]), DTR_AX
+
+    def c_set_units(eng, st, recv, args, kws, node):
+        d = args[0].e if args[0].s == INP else OINP.dt.val(args[0].e)
+        st.oblige('req@set_units/keys-on-pairwise-different-days', wf_input(d), f'@{node.lineno}')
+        f = eng.field(st, cls, '_DirectCalendar__units'); u0 = f[recv.e]
+        exc = st.fork(negative(d)); ok = st.fork(Not(negative(d)))
+        u1 = fresh('units', DICT_TR); eng.write(ok, cls + '._DirectCalendar__units', Store(f, recv.e, u1))
+        cc = Ctx(eng, ok)
+        ok.assume(effect(cc, d, u0, u1))
+        return [(ok, V(None, NONE)), (exc, Raise('RuntimeError'))]
+
+    def build_init():
+        d = lambda c: OINP.dt.val(c['units'])
+        fc = {'sig': {'self': R, 'units': OINP},
+              'requires': [('nn', lambda c: c['self'] != R.null), ('keys-on-pairwise-different-days', lambda c: Implies(OINP.dt.is_some(c['units']), wf_input(d(c))))],
+              'raises': {'RuntimeError': [('C17/rejected-only-for-negative-units', lambda c: And(OINP.dt.is_some(c['units']), negative(d(c))))]},
+              'ensures': [('C17/accepted-only-without-negative-units', lambda c: Not(And(OINP.dt.is_some(c['units']), negative(d(c))))),
+                          ('C17/exactly-the-given-days-are-configured-with-their-values', lambda c: If(OINP.dt.is_some(c['units']), effect(c, d(c), t_empty, u(c)), u(c) == t_empty))]}
+        return Engine(F, 'DirectCalendar.__init__', {'DirectCalendar.set_units': c_set_units}, classes, fc, plugins=[DirectPlugin()]), DTR_AX
+    return [Unit('DirectCalendar.set_units', F, build_set, ['C17']), Unit('DirectCalendar.__init__', F, build_init, ['C17'])]
+
+
+UNITS += direct_more_units()
+
+
+def ctor_units():
+    units = []
+    OLC = OPT(LC)
+    for cls in ('WorkCalendarDisjunction', 'WorkCalendarSum', 'WorkCalendarSub', 'WorkCalendarsMul', 'WorkCalendarDiv'):
+        def build(cls=cls):
+            fld = f'_{cls}__calendars'
+
+            class EmptyList:
+                @staticmethod
+                def ev_List(eng, e, st):
+                    if e.elts: return NotImplemented
+                    Lc = fresh('empty', LC); st.assume(LC.len(Lc) == 0)
+                    return [(st, V(Lc, LC))]
+
+                @staticmethod
+                def cmp(eng, st, k, l, r, line):
+                    if k in ('Is', 'IsNot') and l.s == OLC and r.s == NONE:
+                        c = OLC.dt.is_none(l.e); return c if k == 'Is' else Not(c)
+                    return NotImplemented
+
+                @staticmethod
+                def ev_IfExp(eng, e, st):
+                    out = []
+                    for s, c in eng.ev(e.test, st):
+                        t = eng.truth(s, c)
+                        for br, cond in ((e.body, t), (e.orelse, Not(t))):
+                            for s2, v in eng.ev(br, s.fork(cond)):
+                                if not isinstance(v, Raise) and v.s == OLC:
+                                    s2.oblige('safe/narrowing', OLC.dt.is_some(v.e)); v = V(OLC.dt.val(v.e), LC)
+                                out.append((s2, v))
+                    return out
+            got = lambda c: Select(c.fld(cls, fld), c['self'])
+            fc = {'sig': {'self': REF(cls), 'calendars': OLC}, 'requires': [('nn', lambda c: c['self'] != REF(cls).null)],
+                  'ensures': [('C17/operand-list-stored-as-given-empty-if-None', lambda c: If(OLC.dt.is_some(c['calendars']), got(c) == OLC.dt.val(c['calendars']), LC.len(got(c)) == 0))]}
+            return Engine(F, f'{cls}.__init__', {}, {cls: {fld: LC}}, fc, plugins=[EmptyList]), []
+        units.append(Unit(f'{cls}.__init__', F, build, ['C17']))
+
+    FN = S('Callable', DeclareSort('Callable')); apply_fn = Function('apply_callable', FN.z, OR.z, OR.z)
+
+    def build_func_get():
+        cls = 'FuncCalendar'
+
+        class CallFn:
+            @staticmethod
+            def call(eng, e, st):
+                f = e.func
+                if isinstance(f, ast.Attribute) and f.attr == '__func' and len(e.args) == 1:
+                    s, o = eng.ev1(f.value, st); s, a = eng.ev1(e.args[0], s)
+                    fn = Select(eng.field(s, cls, '_FuncCalendar__func'), o.e)
+                    return [(s, V(apply_fn(fn, eng.coerce(a, OR)), OR))]          # the user's function: any (pure) function of the operand's value
+                return NotImplemented
+        fc = {'sig': {'self': REF(cls), 'date': TIME},
+              'requires': [('nn', lambda c: And(c['self'] != REF(cls).null, Select(c.fld(cls, '_FuncCalendar__calendar'), c['self']) != CAL.null))],
+              'ensures': [('C17/value-is-the-function-applied-to-the-operand-value',
+                           lambda c: c.eng.coerce(c.result, OR) == apply_fn(Select(c.fld(cls, '_FuncCalendar__func'), c['self']), val(Select(c.fld(cls, '_FuncCalendar__calendar'), c['self']), c['date'])))]}
+        return Engine(F, 'FuncCalendar.get_available_units', {'IWorkCalendar.get_available_units': c_get_units}, {cls: {'_FuncCalendar__calendar': CAL, '_FuncCalendar__func': FN}}, fc, plugins=[CallFn]), []
+    units.append(Unit('FuncCalendar.get_available_units', F, build_func_get, ['C17']))
+    return units
+
+
+UNITS += ctor_units()
